@@ -229,6 +229,9 @@ QCH = "abzAZ019%&=+-._*~!$()/:;?@[]|,"
 FCH = "abz019%&=+-._~!#?/|"
 
 
+PRE_OK = [p for p in PRE if p != "http://h.t"] + ["http://h.t/"]     # bases on which Url::parse is the identity
+
+
 def gen_query(rng, with_err=0.3):
     parts = []
     for _ in range(rng.choice([0, 1, 1, 2, 3, 4])):
@@ -281,7 +284,7 @@ def gen_glue(rng):
     r = rng.random()
     if r < 0.30:
         s = glue_input(rng)
-        return dict(case=[9, C.norm(s)], kind="glue-remote-vs-direct", compare=debug_safe(s.encode()))
+        return dict(case=[9, C.norm(s), rng.choice([0, 1, 2])], kind="glue-remote-vs-direct", compare=debug_safe(s.encode()))
     if r < 0.65:
         data = list(glue_input(rng).encode()) if rng.random() < 0.75 else wire_like(rng)
         acc = rng.choice(ACCEPTS)
@@ -297,7 +300,7 @@ def gen_glue(rng):
             if rng.random() < 0.15:
                 raw = raw + rng.choice([b"\xff", b"\xc3", b"\xe2\x82"])
             ref = [2, list(raw)]
-        return dict(case=[8, data, acc, ref], kind="glue-server", compare=debug_safe(data))
+        return dict(case=[8, data, acc, ref, rng.choice([0, 1, 2])], kind="glue-server", compare=debug_safe(data))
     st = rng.choice(STATUSES + [rng.randint(100, 999)])
     loc = [] if rng.random() < 0.5 else [C.norm(rng.choice(["/", "/login", "http://h.t/next?x=1", "", "caf\u00e9"]))]
     rr = rng.random()
@@ -307,7 +310,7 @@ def gen_glue(rng):
         body = list(text(rng, 8).encode())
     else:
         body = list(rand_bytes(rng, 8))
-    return dict(case=[7, C.norm(glue_input(rng)), st, rng.choice([0, 0, 1]), loc, body], kind="glue-client",
+    return dict(case=[7, C.norm(glue_input(rng)), st, rng.choice([0, 0, 1]), loc, body, rng.choice([0, 1, 2])], kind="glue-client",
                 compare=debug_safe(body))
 
 
@@ -446,6 +449,8 @@ def generate(rng, tier):
         elif r < 0.27:
             cust, kind, payload = gen_err(rng, any_char)
             yield dict(case=[0, cust, kind, payload], kind="err-ser-de-anyunicode")
+        elif r < 0.29:
+            yield dict(case=[16, rng.choice([0, 1]), rng.randint(1, 10), C.norm(text(rng, 6))], kind="from-server-fn-error")
         elif r < 0.45:
             w = wire_like(rng)
             yield dict(case=[1, rng.choice([0, 1]), w], kind="err-de-bytes", compare=debug_safe(w))
@@ -552,6 +557,9 @@ def ref_err_wire(err):
     return TAGS[err[0]].encode() + b"|" + bytes(err[1])
 
 
+GLUE_PATHS = ["/api/glue", "/api/glue_patch", "/api/glue_put"]
+
+
 def oracle_glue(case, impl):
     import base64 as B
     import urllib.parse as U
@@ -564,7 +572,7 @@ def oracle_glue(case, impl):
             return "harness: direct call differs from the reference body"
         return None if remote == direct else "remote call result differs from the direct call"
     if op == 7:
-        _, s, st, red, loc, body = case
+        _, s, st, red, loc, body = case[:6]
         res = impl[0]
         if 400 <= st <= 599:
             if res[0] != 1:
@@ -576,7 +584,8 @@ def oracle_glue(case, impl):
             return None if (res[0] == 1 and res[1][0] == 6) else "undecodable response body did not produce a Deserialization error"
         return None if res == [0, list(t.encode())] else "a decodable success response was not returned as Ok"
     if op == 8:
-        _, data, acc, ref = case
+        _, data, acc, ref = case[:4]
+        gpath = GLUE_PATHS[case[4] if len(case) > 4 else 0]
         status, body, errh, loc, ctype = impl
         html = bool(acc) and b"text/html" in bytes(acc[0])
         try:
@@ -588,7 +597,7 @@ def oracle_glue(case, impl):
             if bytes(body) != bytes(want[1]) or errh:
                 return "success response does not carry the returned value"
         else:
-            if errh != [list(b"/api/glue")]:
+            if errh != [list(gpath.encode())]:
                 return "error response lacks the serverfnerror header"
             if want[0] == "err" and bytes(body) != ref_err_wire(want[1]):
                 return "error response body is not the error's wire form"
@@ -616,7 +625,7 @@ def oracle_glue(case, impl):
             keep = [(k, v) for (k, v) in before if k not in ("__err", "__path")]
             return None if pairs == keep else "stale error info not stripped from the referer (or other pairs changed)"
         last = dict(pairs)          # dict() keeps the last value of a repeated key
-        if last.get("__path") != "/api/glue":
+        if last.get("__path") != gpath:
             return "__path in the redirect URL is not this function's path"
         w = b64_canonical(last.get("__err", "!"), URL64, True)
         if w is None:
@@ -774,6 +783,11 @@ def oracle(item, impl):
         return check_de(w, impl)
     if op in (7, 8, 9):
         return oracle_glue(case, impl)
+    if op == 16:
+        _, cust, k, m = case
+        if impl[1] != m:
+            return "from_server_fn_error changed the message"
+        return None if (k == 10 or impl[0] == k) else "from_server_fn_error changed the kind of the error"
     if op >= 10:
         return oracle_typed(case, impl)
     if op == 6:
@@ -864,22 +878,26 @@ def valid_case(item):
             _, cust, kind, payload, path, pre, q, f = c
             if not valid_case(dict(case=[0, cust, kind, payload])):
                 return False
-            return (_is_text(path) and bytes(pre).decode() in PRE + ["http://h.t/"]
+            return (_is_text(path) and bytes(pre).decode() in PRE_OK
                     and _is_opt(q, lambda v: _is_bytes(v) and all(chr(x) in QOK for x in v))
                     and _is_opt(f, lambda v: _is_bytes(v) and all(chr(x) in FCH for x in v)))
         if op == 5:
             return len(c) == 3 and c[1] in (0, 1) and _is_text(c[2])
         if op == 6:
             _, pre, q, f = c
-            return (bytes(pre).decode() in PRE + ["http://h.t/"]
+            return (bytes(pre).decode() in PRE_OK
                     and _is_opt(q, lambda v: _is_bytes(v) and all(chr(x) in QOK for x in v))
                     and _is_opt(f, lambda v: _is_bytes(v) and all(chr(x) in FCH for x in v)))
         if op == 7:
-            _, s, st, red, loc, body = c
+            _, s, st, red, loc, body = c[:6]
+            if len(c) not in (6, 7) or (len(c) == 7 and c[6] not in (0, 1, 2)):
+                return False
             return (_is_text(s) and isinstance(st, int) and 100 <= st <= 999 and red in (0, 1)
                     and _is_opt(loc, lambda v: _is_header(v) and _is_text(v)) and _is_bytes(body))
         if op == 8:
-            _, data, acc, ref = c
+            _, data, acc, ref = c[:4]
+            if len(c) not in (4, 5) or (len(c) == 5 and c[4] not in (0, 1, 2)):
+                return False
             if not (_is_bytes(data) and _is_opt(acc, lambda v: _is_header(v) and _is_text(v))):
                 return False
             if ref == []:
@@ -889,7 +907,9 @@ def valid_case(item):
             return ref[0] == 2 and len(ref) == 2 and _is_header(ref[1]) and bytes(ref[1]).decode("utf-8", "replace") in \
                 [r.encode().decode() for r in RAW_REFERERS] + [r + "\ufffd" for r in RAW_REFERERS]
         if op == 9:
-            return len(c) == 2 and _is_text(c[1])
+            return len(c) in (2, 3) and _is_text(c[1]) and (len(c) == 2 or c[2] in (0, 1, 2))
+        if op == 16:
+            return len(c) == 4 and c[1] in (0, 1) and c[2] in range(1, 11) and _is_text(c[3])
         if op in (10, 11):
             if not (isinstance(c[1], int) and 0 <= c[1] < len(PAIRS) and _valid_val(c[2]) and
                     c[3][0] in range(11) and _is_text(c[3][1])):
@@ -952,14 +972,17 @@ def describe(it):
     if case[0] == 5:
         return "ServerFnUrlError::<ServerFnError<%s>>::decode_err(%r)" % (["NoCustomError", "Code"][case[1]], C.show_bytes(case[2]))
     if case[0] == 7:
-        _, s_, st, red, loc, body = case
+        _, s_, st, red, loc, body = case[:6]
         return "Glue{%r}.run_on_client() when the transport answers status=%d redirect-header=%d location=%r body=%r" % (
             C.show_bytes(s_), st, red, [C.show_bytes(l) for l in loc], C.bs(body))
     if case[0] == 8:
-        _, data, acc, ref = case
+        _, data, acc, ref = case[:4]
         r = None if not ref else (C.show_bytes(ref[1]) + ("?" + C.show_bytes(ref[2][0]) if ref[2] else "") +
                                   ("#" + C.show_bytes(ref[3][0]) if ref[3] else "")) if ref[0] == 1 else C.bs(ref[1])
         return "POST /api/glue body=%r Accept=%r Referer=%r -> run_on_server" % (C.bs(data), [C.show_bytes(a) for a in acc], r)
+    if case[0] == 16:
+        return "ServerFnError<%s>::from_server_fn_error(ServerFnErrorErr::%s(%r))" % (
+            ["NoCustomError", "Code"][case[1]], (KINDS + ["UnsupportedRequestMethod"])[case[2]], C.show_bytes(case[3]))
     if case[0] in (10, 11):
         d = "%s(v=%r, plan=%r)" % ("f_" + PAIRS[case[1] % len(PAIRS)], case[2], (case[3][0], C.show_bytes(case[3][1])))
         if case[0] == 10:
